@@ -199,7 +199,7 @@ def rename(obj, table):
     if isinstance(obj, dict):
         out = {}
         for k, v in obj.items():
-            if k == "tok" and isinstance(v, str):
+            if k in ("tok", "stok") and isinstance(v, str):
                 out[k] = table.get(v, v)
             else:
                 out[k] = rename(v, table)
@@ -217,7 +217,7 @@ def bind(abstract, projected, table):
             return False
         ok = True
         for k in abstract:
-            if k == "tok":
+            if k in ("tok", "stok"):
                 a, p = abstract[k], projected[k]
                 if a != p:
                     if not (isinstance(p, str) and p.startswith("#")):
